@@ -359,6 +359,30 @@ pub fn run(ctx: &Ctx) -> Evidence {
         }
         ev.class("enumerated:opcode-fetched-from-io-page(address x byte x follow-up)", scripts.len() as u64);
     }
+    // ---- enumerated: every prefix opcode x every second byte x program-size limits around the pair
+    // (the second opcode byte is decoded by a word of its own; halting bytes and the supervision can
+    // meet on one clock edge there)
+    {
+        let mut scripts = vec![];
+        for first in 0xF0u8..=0xFF {
+            for second in 0..=255u8 {
+                for (li, limit) in [0u8, 1, 2, 255].iter().enumerate() {
+                    let image = vec![first, second, 0x02, 0x02, 0x01];
+                    let ops = vec![Op::Edges(30), Op::KeyInt, Op::Continue, Op::Edges(20), Op::AsmStep, Op::CpuReset, Op::AsmStep, Op::AsmStep];
+                    scripts.push(Script { image, stack: ((second as usize + li) % 5) as u8, psize: Some(*limit), ops });
+                }
+            }
+        }
+        let res = par_chunks(ctx.threads, scripts.len(), |k| run_script(&scripts[k]).0);
+        for (k, v) in res.into_iter().enumerate() {
+            ev.evaluations += 1;
+            ev.nontrivial(&(0x2B17u32, k));
+            if let Verdict::Fail(s, d) = v {
+                ev.violation("script", &s, d, serde_json::to_value(&scripts[k]).unwrap());
+            }
+        }
+        ev.class("enumerated:prefix-opcode x second-byte x program-size-limit", scripts.len() as u64);
+    }
     let n: u64 = ctx.tier.pick(150_000, 5_000_000);
     let collected = std::sync::Mutex::new(Evidence::new("", ""));
     let res = par_search(ctx.threads, 32, ctx.seed, n, || script_strategy(120), &known, |c, first, _| {
